@@ -51,14 +51,14 @@ PROPS = {
                 focus={'join', 'entityAdd', 'entityDelete', 'updatePose', 'custom', 'action', 'assetAdd'},
                 topics=slice_of(['join', 'entityAdd', 'entityDelete', 'updatePose', 'custom', 'action', 'assetAdd', 'disconnect'],
                                 relay_only=True, outs=RELAYS)),
-    'C04': dict(modules=['Hagall.Props.C04'], profiles=['mixed', 'comp', 'module', 'malformed', 'latency'], n=(240, 4000),
+    'C04': dict(extra=['conc_explore'], modules=['Hagall.Props.C04'], profiles=['mixed', 'comp', 'module', 'malformed', 'latency'], n=(240, 4000),
                 focus=None,
                 topics=slice_of(ALL_TOPICS, kinds=['outcome'], answer_only=True, outs=ANSWERS)),
-    'C05': dict(modules=['Hagall.Props.C05'], profiles=['pose', 'mixed', 'module'], n=(240, 4000),
+    'C05': dict(extra=['conc_explore'], modules=['Hagall.Props.C05'], profiles=['pose', 'mixed', 'module'], n=(240, 4000),
                 focus={'entityDelete', 'updatePose', 'assetAdd'},
                 topics=slice_of(['entityDelete', 'updatePose', 'assetAdd'],
                                 outs={'error', 'entityDeleteResp', 'entityDeleteBcast', 'poseBcast', 'assetAddResp', 'assetAddBcast'})),
-    'C06': dict(modules=['Hagall.Props.C06'], profiles=['join', 'module', 'comp', 'mixed'], n=(240, 4000),
+    'C06': dict(extra=['conc_explore'], modules=['Hagall.Props.C06'], profiles=['join', 'module', 'comp', 'mixed'], n=(240, 4000),
                 focus={'join', 'entityAdd', 'compAdd', 'action', 'assetAdd'},
                 topics=slice_of(['disconnect', 'join', 'receipt'], kinds=['outcome'],
                                 outs={'leaveBcast', 'entityDeleteBcast', 'sessionState', 'vikjaState', 'odalState'})),
@@ -68,15 +68,15 @@ PROPS = {
                 tools=['drive', 'extract', 'wire'], extra=['wire_harness', 'conc_explore'],
                 topics=slice_of(['join', 'entityAdd', 'typeAdd', 'typeGetName', 'typeGetId', 'assetAdd'], kinds=['state'], answer_only=True,
                                 outs={'joinResp', 'entityAddResp', 'typeAddResp', 'typeNameResp', 'typeIdResp', 'assetAddResp'})),
-    'C12': dict(modules=['Hagall.Props.C12'], profiles=['comp', 'mixed'], n=(240, 4000), focus=set(COMP) | {'entityDelete'},
+    'C12': dict(extra=['conc_explore'], modules=['Hagall.Props.C12'], profiles=['comp', 'mixed'], n=(240, 4000), focus=set(COMP) | {'entityDelete'},
                 topics=slice_of(COMP + ['entityDelete', 'join', 'disconnect'], outs=COMPOUTS | {'sessionState'})),
-    'C13': dict(modules=['Hagall.Props.C13'], profiles=['comp', 'mixed', 'subs'], n=(240, 4000),
+    'C13': dict(extra=['conc_explore'], modules=['Hagall.Props.C13'], profiles=['comp', 'mixed', 'subs'], n=(240, 4000),
                 focus={'compAdd', 'compDelete', 'compUpdate', 'subscribe', 'unsubscribe'},
                 topics=slice_of(['compAdd', 'compDelete', 'compUpdate', 'subscribe', 'unsubscribe'],
                                 outs={'compAddBcast', 'compDeleteBcast', 'compUpdateBcast', 'subscribeResp', 'unsubscribeResp', 'error'})),
     'C14': dict(modules=['Hagall.Props.C14'], profiles=['custom', 'mixed', 'crowd'], n=(240, 4000), focus={'custom'},
                 topics=slice_of(['custom'])),
-    'C16': dict(modules=['Hagall.Props.C16', 'Hagall.Props.C01Conc'], profiles=['module', 'mixed'], n=(240, 4000), focus={'action', 'assetAdd'},
+    'C16': dict(extra=['conc_explore'], modules=['Hagall.Props.C16', 'Hagall.Props.C01Conc'], profiles=['module', 'mixed'], n=(240, 4000), focus={'action', 'assetAdd'},
                 topics=slice_of(['action', 'assetAdd', 'join', 'entityDelete', 'disconnect'],
                                 outs={'vikjaState', 'odalState', 'actionResp', 'actionBcast', 'assetAddResp', 'assetAddBcast', 'error'},
                                 pred=lambda d: not (d.get('topic') in ('entityDelete', 'disconnect') and d['outs'] <= {'error'}))),
